@@ -86,6 +86,7 @@ def forbidden_scan():
             if not f.endswith(".lean"): continue
             p = os.path.join(root, f)
             for n, line in enumerate(strip_comments(open(p).read()).split("\n"), 1):
+                line = re.sub(r'"(?:[^"\\]|\\.)*"', '""', line)      # string literals are data, not code
                 if FORBIDDEN.search(line):
                     hits.append(f"{os.path.relpath(p, LEAN)}:{n}: {line.strip()}")
     return hits
@@ -94,7 +95,8 @@ def forbidden_scan():
 def audit(prop_id, module, theorems):
     """#print axioms on every property theorem. Returns dict name -> (ok, axioms|error)."""
     os.makedirs(WORK, exist_ok=True)
-    src = f"import {module}\n" + "".join(f"#print axioms {t}\n" for t in theorems)
+    mods = module if isinstance(module, list) else [module]
+    src = "".join(f"import {m}\n" for m in mods) + "".join(f"#print axioms {t}\n" for t in theorems)
     path = os.path.join(WORK, f"audit_{prop_id}.lean")
     open(path, "w").write(src)
     rc, out, err = run(["lake", "env", "lean", path], cwd=LEAN, timeout=1200)
